@@ -12,7 +12,7 @@ From GL Require Import Base.Bytes Base.Order Codec.IKey Codec.Journal Codec.Jour
   Lsm.Lsm Lsm.History Lsm.HistoryProofs Lsm.ReadPath Lsm.ReadPathMem Lsm.BatchWriteProofs
   Store.Crash Store.CrashProofs Store.CrashBytes Store.CrashBytesProofs Store.ManifestReplayProofs
   Store.OpenPath Store.OpenJournalProofs.
-From GL Require Mem.MemDB Mem.MemOps Mem.MemInv Store.Sweep.
+From GL Require Mem.MemDB Mem.MemOps Mem.MemInv Store.Sweep Store.FileStorageProofs Store.FileStorageCrashProofs.
 Import ListNotations.
 Open Scope N_scope.
 
@@ -486,3 +486,36 @@ Section OpenProofs.
     openb o hts (os_image r) = OOk r.
   Proof. intros Hro E. destruct (open_ro_leaves_image o hts img r Hro E) as (-> & _). exact E. Qed.
 End OpenProofs.
+
+(* ---------------------------------------------------------------- the real file storage *)
+(* GetMeta's answer does not depend on the mode (only its repair does), so a directory is seen by Open as the
+   abstract image whose meta pointer is get_meta_result — the function C04_setmeta_crash_atomic and the other
+   theorems of Props/C04FS.v are about. *)
+Lemma get_meta_fst ro v : fst (FS.get_meta ro v) = FS.get_meta_result v.
+Proof.
+  unfold FS.get_meta, FS.get_meta_result, FS.get_meta_ops.
+  destruct (FS.g_chosen (FS.get_meta_choice v)) as [[name x]|]; reflexivity.
+Qed.
+
+Lemma dir_image_of_meta ro v x : FS.get_meta_result v = FS.GOk x ->
+  dir_image ro v = DImage (mkSI (Some (Z.to_N (FS.fd_num x))) (dir_files v)).
+Proof. intros E. unfold dir_image. rewrite get_meta_fst, E. reflexivity. Qed.
+
+(* hence, while setMeta(B) is in progress on a directory settled on A, every crash image opens as the files of
+   the directory under the meta pointer A or under the meta pointer B — never a third pointer, never "corrupted" *)
+Theorem open_dir_setmeta_crash jcrc jp rp kp bhl mp tp tcrc compress snappy fgen blockSize ri c o hts
+    s A B K i0 k v :
+  FileStorageCrashProofs.clean s A A K i0 -> In (FS.gen_name A) K -> In (FS.gen_name B) K ->
+  (FS.fd_num A < FS.fd_num B)%Z -> FS.int64_ok (FS.fd_num A) = true -> FS.int64_ok (FS.fd_num B) = true ->
+  FS.crash_image (FS.fapply_all s (firstn k (FS.set_meta_ops (FS.vol_view s) B))) v ->
+  let ob := open_bytes jcrc jp rp kp bhl mp tp tcrc compress snappy fgen blockSize ri c o hts in
+  open_dir jcrc jp rp kp bhl mp tp tcrc compress snappy fgen blockSize ri c o hts v =
+    ob (mkSI (Some (Z.to_N (FS.fd_num A))) (dir_files v)) \/
+  open_dir jcrc jp rp kp bhl mp tp tcrc compress snappy fgen blockSize ri c o hts v =
+    ob (mkSI (Some (Z.to_N (FS.fd_num B))) (dir_files v)).
+Proof.
+  intros Hc HA HB Hlt IA IB Hcr ob.
+  destruct (FileStorageCrashProofs.set_meta_crash_atomic s A B K i0 Hc HA HB Hlt IA IB) as (H & _).
+  unfold open_dir. destruct (H k v Hcr) as [E|E]; [left|right]; rewrite (dir_image_of_meta _ _ _ E); reflexivity.
+Qed.
+
